@@ -312,6 +312,16 @@ SPEC = {
                   "assignment, the operand of every accepted ++/-- and every out/inout argument of an accepted call is a mutable "
                   "place (itself and every object on the way to the variable is a non-const lvalue under the IR's typing judgment), "
                   "hence never the result of a conversion; vector / matrix operators are never done in an untyped literal kind. "
+                  "Declared types: for the model of parse_type_for_usage's modifier handling (parse_type_modifier's keyword "
+                  "loop with its conflict / matrix / float / position checks, TypeModifier::combine, typedef chains of any "
+                  "length, struct-template type arguments, every declaration position) the declared type carries a modifier "
+                  "iff some typedef layer, the template argument or the use site writes it — a typedef's const (row_major, "
+                  "unorm, ...) survives whatever else is written at the use site —, no accepted declaration is both row_major "
+                  "and column_major or both unorm and snorm wherever the two keywords meet, and composed with the write "
+                  "theorems: an object declared through a const typedef is never an accepted assignment / ++ / -- target. The "
+                  "source statements that merge the named type's modifier with the written one, the fields of combine and "
+                  "the keyword arms are re-extracted (Gen.TypeMods) and re-decided against the model's behaviour "
+                  "(parse_type_for_usage_as_modelled); the discipline of seeded mutant C03-5 is a decide-checked negation witness. "
                   "Where the full statement is false on the code the negation is a decide-checked witness replayed on the "
                   "implementation: a scalar / vector swizzle may name more than four components.",
     "rule": "C03.conv = one row of the exhaustive find/get_target_type table over 8 scalar kinds x {scalar, vec1-4, 2 matrices} "
@@ -330,6 +340,13 @@ SPEC = {
             "returns at several nesting depths; random statement trees and expressions. Accepted modules are walked node by "
             "node (get_type under guard + exactness oracle + declaration-based write oracle). C03.type / C03.typex = the typed "
             "expression the real checker produced, re-typed node by node by the real get_type and by the model's typeOf. "
+            "C03.decl = (type below the modifiers, typedef chain or struct-template parameter over a typedef chain with a keyword "
+            "list per layer, keyword list at the use site, storage: local / parameter / static global / struct member / array "
+            "element, write form: none / read / = / += / ++ / out argument / component / element) spelled as an RSSL program; "
+            "observation = declaration verdict, modifier of the registered type of the object, verdict of the write; the oracle "
+            "decides constness from the keywords of the request alone (const on any layer or at the use site) and fails every "
+            "accepted write to such an object: each keyword carried by a typedef x 8 use-site sets x 5 storages x 4 write forms on "
+            "6 base types, 37 chains x 20 use-site sets with both carriers, and random points of the whole product. "
             "C03.src = a raw program (reproducers with buffers / cbuffers), oracle only. non-trivial = a statement containing an "
             "operator, call, projection, constructor, definition or control statement.",
     "trusted_base": [
@@ -340,7 +357,13 @@ SPEC = {
         "literal re-tagging tables of ImplicitConversion::apply, the literal-kind remap of vector / matrix operators, the pinned call "
         "sites and bodies of check_mutable_place / check_output_arguments; IntrinsicSigs: the INTRINSICS table expanded as add_intrinsics "
         "registers it; ElabTables: the swizzle character tables and the arm lists of member access / subscript / aggregate "
-        "initialiser) — re-run on /repo's working tree every time",
+        "initialiser; TypeMods: the statements of parse_type_for_usage around the modifier merge, the fields and operator of "
+        "TypeModifier::combine, per keyword arm of parse_type_modifier the field set, the conflicting fields, the requirement, "
+        "the denying positions and the errors) — re-run on /repo's working tree every time",
+        "hand-written Model/TypeMods.lean (parse_type_modifier, the merge, typedef chains, the const denial of parse_struct) — "
+        "tied by Thm.C03D.parse_type_for_usage_as_modelled (the re-extracted rows equal the rows obtained by probing the model) "
+        "and by the C03.decl correspondence; the write verdict of a C03.decl request is the extended elaboration model's on the "
+        "equivalent C03.progx program whose variable has the merged type",
         "hand-written Model/Conv.lean (find, get_target_type), Model/Ty.lean, Model/IrTyping.lean + IrTypingX.lean (get_type), "
         "Model/Elab.lean + ElabX.lean (parse_expr_*, apply, member access, read_matrix_subscript, subscripts, constructors, "
         "check_mutable_place / check_output_arguments / TypeRegistry::is_const: written from source copies the translator pins "
@@ -350,6 +373,8 @@ SPEC = {
         "Spec/ElabX.lean (StmtsTyped, InitTyped, RetExact, projection chains; MutablePlace / ConstTy / ProjOf) is our reading of "
         "'every initialiser, return ... receives operands of exactly the types it requires' and of 'write to const or non-lvalue "
         "expressions'",
+        "the C03.decl oracle (harness/src/c03/decl.rs) reads constness off the keywords written in the request (typedef layers, "
+        "template argument, use site), never off a type the checker registered",
         "the harness oracle (harness/src/c03.rs: check rules of Walk::expr, the declaration-based write oracle Walk::place) is "
         "our reading of 'exactly the types it requires' and of 'write to const or non-lvalue expressions'",
     ],
@@ -360,6 +385,11 @@ SPEC = {
         "modes and prove that this query never fires",
         "outside the model (answered `unsupported`, reached by the IR walk only): objects other than the subscript of "
         "buffers / textures (ConstantBuffer, samplers, `.mips`, RayDesc), methods, templates (DispatchMesh), enums inside operators, sizeof, case labels that are not literals",
+        "declared types: typedefs of array types (`typedef const float CA[2]`), function-template type arguments (they are "
+        "stripped of all modifiers by normalize_template_type: `w<const float>()` instantiates `w<float>`), storage-class / "
+        "in-out / interpolation / precise keywords next to type modifiers, cbuffer members and return types are not generated "
+        "by C03.decl; Walk::place still reads the registered type of a variable for programs of the other streams (they "
+        "declare every type directly, where registered type = written type is what C03.decl checks with an empty chain)",
         "variables of the generated programs have unique names v<i>; a definition declares one variable; user function "
         "parameters are not arrays",
         "signature parameter types carry no modifier: strip_param_type is mirrored by ElabX.stripParamType (applied by the "
